@@ -279,6 +279,66 @@ func init() {
 			}
 			return hx(p.CompressedBytes())
 		}},
+		// ---------------- remaining public entry points on shared operands
+		{name: "Scalar arithmetic", warm: true, cold: true, run: func(fx *Fixture, o *Op, c *ctx) string {
+			a, b := pick(fx.scalars, o.A), pick(fx.scalars, o.B)
+			S := secp256k1.NewScalar
+			var raw [32]byte
+			copy(raw[:], a.Bytes())
+			sb, did := secp256k1.NewScalarFromBytes(&raw)
+			return fmt.Sprintf("%x/%x/%x/%x/%x/%x/%x/%d", S().Add(a, b).Bytes(), S().Subtract(a, b).Bytes(), S().Negate(a).Bytes(), S().Square(a).Bytes(),
+				S().ConditionalNegate(a, uint64(o.C&1)).Bytes(), S().ConditionalSelect(a, b, uint64(o.C>>1&1)).Bytes(), sb.Bytes(), did)
+		}},
+		{name: "SetUniformBytes/NewPointFromCoords/Split", warm: true, run: func(fx *Fixture, o *Op, c *ctx) string {
+			src := append(append([]byte{}, pick(fx.digests, o.A)...), pick(fx.digests, o.A+1)[:16]...)
+			u := P().SetUniformBytes(src)
+			pt := pick(fx.points, o.B)
+			if pt.IsIdentity() == 1 {
+				return hx(u.CompressedBytes()) + "/id"
+			}
+			unc := pt.UncompressedBytes()
+			xb, yOdd := secp256k1.SplitUncompressedPoint(unc)
+			q, err := secp256k1.NewPointFromCoords((*[32]byte)(unc[1:33]), (*[32]byte)(unc[33:65]))
+			if err != nil {
+				return "err"
+			}
+			return fmt.Sprintf("%x/%x/%d/%x", u.CompressedBytes(), xb, yOdd, q.CompressedBytes())
+		}},
+		{name: "Build/Parse signatures", warm: true, run: func(fx *Fixture, o *Op, c *ctx) string {
+			r, s, v := pick(fx.sigR, o.A), pick(fx.sigS, o.A), pick(fx.sigV, o.A)
+			a1, a2, a3 := secec.BuildASN1Signature(r, s), secec.BuildCompactSignature(r, s), secec.BuildCompactRecoverableSignature(r, s, v)
+			r2, s2, err := secec.ParseCompactSignature(pick(fx.sigCompact, o.A))
+			if err != nil {
+				return "err"
+			}
+			return fmt.Sprintf("%x/%x/%x/%x/%x", a1, a2, a3, r2.Bytes(), s2.Bytes())
+		}},
+		{name: "Sign(crypto.SHA256 opts, crypto.Signer)", warm: true, run: func(fx *Fixture, o *Op, c *ctx) string {
+			var signer crypto.Signer = pick(fx.privs, o.A)
+			sig, err := signer.Sign(c.device(o.Seed, false), pick(fx.digests, o.B), crypto.SHA256)
+			pub, _ := signer.Public().(*secec.PublicKey)
+			return fmt.Sprintf("%x/%s/%v", sig, errStr(err), err == nil && pub.Verify(pick(fx.digests, o.B), sig, nil))
+		}},
+		{name: "NewSchnorrPublicKey(bytes)+Verify/PreHash", warm: true, run: func(fx *Fixture, o *Op, c *ctx) string {
+			sp := pick(fx.spubs, o.A)
+			k, err := bitcoin.NewSchnorrPublicKey(sp.Bytes())
+			if err != nil {
+				return "err"
+			}
+			ph, err := bitcoin.PreHashSchnorrMessage("verif/conc", pick(fx.msgs, o.B))
+			var signer crypto.Signer = pick(fx.sprivs, o.A)
+			pk2, _ := signer.Public().(*bitcoin.SchnorrPublicKey)
+			return fmt.Sprintf("%x/%v/%x/%s/%v", k.Bytes(), k.Verify(pick(fx.msgs, o.C), pick(fx.schSigs, o.A)), ph, errStr(err), pk2.Equal(k))
+		}},
+		{name: "GenerateSchnorrKey", cold: true, warm: true, run: func(fx *Fixture, o *Op, c *ctx) string {
+			k, err := bitcoin.GenerateSchnorrKey()
+			if err != nil {
+				return "err"
+			}
+			q, derr := ref.Decode(append([]byte{2}, k.PublicKey().Bytes()...))
+			want := ref.BaseMul(ref.OS2IP(k.Bytes()))
+			return "valid=" + b2s(derr == nil && !q.Inf && want.X.Cmp(q.X) == 0)
+		}},
 		// ---------------- cold-start composites: construct from shared bytes, then use
 		{name: "cold:NewPrivateKey+Sign(RFC6979)", cold: true, warm: true, run: func(fx *Fixture, o *Op, c *ctx) string {
 			k, err := secec.NewPrivateKey(pick(fx.privEncs, o.A))
